@@ -462,3 +462,170 @@ def mixed_sweep(cases, sel, impl_tokens, tag='mixed', chunk=400):
             raise RuntimeError(f'coqc failed on {f}: {se[-1500:]}')
         bad += [base + j for j in C.parse_N_list(C.parse_eval_blocks(so)[0])]
     return bad
+
+
+# ------------------------------------------------------------------------------------------
+# answers do not depend on what was asked before: the same question on a graph object that has already answered every other
+# question (in forward and in reverse order) and on a freshly built object of the same graph
+# ------------------------------------------------------------------------------------------
+def order_independence(run, pid, fns, sizes=(5,), sample6=0, rng=None):
+    """fns: list of (label, f, arity) with f(g, name_x[, name_y]) -> iterable of identifiers. Every upper-triangular DAG on the
+    given sizes (every unlabelled DAG occurs among them) plus `sample6` random 6-node DAGs. Returns the number of questions asked."""
+    import itertools
+    dags = []
+    for n in sizes:
+        dags += [(n, a) for a in upper_triangular_dags(n)]
+    if sample6 and rng is not None:
+        dags += [(6, random_dag(rng, 6)) for _ in range(sample6)]
+    asked = 0
+    nviol = 0
+
+    def plain(n, arcs):
+        g = CausalGraph()
+        g.add_nodes_from([NAMES[i] for i in range(n)])
+        for a, b in arcs:
+            g.add_edge(NAMES[a], NAMES[b])
+        return g
+
+    def ask(f, g, q):
+        try:
+            return sorted(I_(f(g, *[NAMES[v] for v in q])))
+        except Exception as e:  # noqa: BLE001
+            return f'raised {type(e).__name__}'
+    for n, arcs in dags:
+        for label, f, arity in fns:
+            qs = list(itertools.permutations(range(n), 2)) if arity == 2 else [(v,) for v in range(n)]
+            fresh = {q: ask(f, plain(n, arcs), q) for q in qs}
+            for order in (qs, qs[::-1]):
+                g = plain(n, arcs)
+                for k, q in enumerate(order):
+                    asked += 1
+                    got = ask(f, g, q)
+                    if got != fresh[q]:
+                        if nviol < 2:
+                            run.violation(dict(kind='order_dependence', function=label, n=n, arcs=arcs, asked_before=[list(x) for x in order[:k]],
+                                               question=list(q), got=got, fresh_object=fresh[q],
+                                               why=f'{label}{tuple(NAMES[v] for v in q)} answers {got} on a graph object that has answered '
+                                                   f'{k} other questions and {fresh[q]} on a freshly built object of the same graph '
+                                                   f'(edges {[(NAMES[a], NAMES[b]) for a, b in arcs]})',
+                                               replay_cmd=f'./check {pid} --replay <this file>'), note=f'{label} depends on earlier questions')
+                        nviol += 1
+                        break
+    run.oblige(f'answers independent of earlier questions: {", ".join(l for l, _, _ in fns)} on {len(dags)} DAGs, every question asked on a '
+               f'fresh object and on an object that has answered all the others (forward and reverse order)', nviol == 0,
+               '' if not nviol else f'{nviol} (DAG, function, order) combinations differ')
+    run.coverage['order_independence_questions'] = asked
+    return asked
+
+
+def I_(xs):
+    return [x if isinstance(x, str) else x.identifier for x in xs]
+
+
+def replay_order(run, c, fns):
+    """re-run one recorded order-dependence case"""
+    f = dict((l, fn) for l, fn, _ in fns)[c['function']]
+    n, arcs = c['n'], [tuple(a) for a in c['arcs']]
+
+    def plain():
+        g = CausalGraph()
+        g.add_nodes_from([NAMES[i] for i in range(n)])
+        for a, b in arcs:
+            g.add_edge(NAMES[a], NAMES[b])
+        return g
+    g = plain()
+    for q in c['asked_before']:
+        try:
+            f(g, *[NAMES[v] for v in q])
+        except Exception:  # noqa: BLE001
+            pass
+    q = c['question']
+    got = sorted(I_(f(g, *[NAMES[v] for v in q])))
+    fresh = sorted(I_(f(plain(), *[NAMES[v] for v in q])))
+    print('warm object:', got, ' fresh object:', fresh)
+    if got != fresh:
+        run.violation(dict(c, got=got, fresh_object=fresh), note='depends on earlier questions')
+    return 1 if run.violations else 0
+
+
+def build_mixed_edited(n, mg, rng):
+    """The same mixed graph reached through an edit history: edges first added with another type (or the other way round) and then
+    re-typed / removed and re-added, extra edges added and removed again, nodes deleted and re-created. Returns (graph, steps) or
+    (None, steps) when the library refused a step (then the case is skipped; directed cycles make some detours illegal)."""
+    from cai_causal_graph.type_definitions import EdgeType
+    g = CausalGraph()
+    g.add_nodes_from([NAMES[i] for i in range(n)])
+    steps = []
+
+    def do(op, *a):
+        steps.append([op, *a])
+        if op == 'add':
+            g.add_edge(NAMES[a[0]], NAMES[a[1]], edge_type=EdgeType(a[2]), validate=False)
+        elif op == 'retype':
+            g.change_edge_type(NAMES[a[0]], NAMES[a[1]], EdgeType(a[2]))
+        elif op == 'remove':
+            g.remove_edge(NAMES[a[0]], NAMES[a[1]])
+        elif op == 'delete':
+            g.delete_edge(NAMES[a[0]], NAMES[a[1]])
+    used = {frozenset((s, d)) for s, d, _ in mg}
+    free = [(a, b) for a in range(n) for b in range(n) if a != b and frozenset((a, b)) not in used]
+    extras = []
+    try:
+        for s, d, t in mg:
+            mode = rng.randrange(6)
+            t2 = rng.choice([x for x in ('->', '<>', '--') if x != t])
+            if mode == 0:
+                do('add', s, d, t)
+            elif mode == 1:
+                do('add', s, d, t2)
+                do('retype', s, d, t)
+            elif mode == 2:
+                do('add', d, s, t2)
+                do(rng.choice(['remove', 'delete']), d, s)
+                do('add', s, d, t)
+            elif mode == 3:
+                do('add', s, d, t)
+                do('retype', s, d, t2)
+                do('retype', s, d, t)
+            elif mode == 4:
+                do('add', d, s, rng.choice(['<>', '--']))
+                do('remove', d, s)
+                do('add', s, d, t)
+            else:
+                do('add', s, d, t)
+                if free and rng.random() < 0.7:
+                    a, b = rng.choice(free)
+                    if frozenset((a, b)) not in {frozenset(e[:2]) for e in extras}:
+                        do('add', a, b, rng.choice(['->', '<>', '--']))
+                        extras.append((a, b))
+        rng.shuffle(extras)
+        for a, b in extras:
+            do(rng.choice(['remove', 'delete']), a, b)
+    except Exception as e:  # noqa: BLE001
+        steps.append(['refused', type(e).__name__])
+        return None, steps
+    final = sorted((e.source.identifier, e.destination.identifier, str(e.get_edge_type())) for e in g.get_edges())
+    want = sorted((NAMES[s], NAMES[d], t) for s, d, t in mg)
+
+    def norm(es):
+        return sorted((min(a, b), max(a, b), t) if t in ('<>', '--') else (a, b, t) for a, b, t in es)
+    if norm(final) != norm(want):
+        steps.append(['final edge set differs', final])
+        return None, steps
+    return g, steps
+
+
+def replay_mixed_steps(n, steps):
+    from cai_causal_graph.type_definitions import EdgeType
+    g = CausalGraph()
+    g.add_nodes_from([NAMES[i] for i in range(n)])
+    for op, *a in steps:
+        if op == 'add':
+            g.add_edge(NAMES[a[0]], NAMES[a[1]], edge_type=EdgeType(a[2]), validate=False)
+        elif op == 'retype':
+            g.change_edge_type(NAMES[a[0]], NAMES[a[1]], EdgeType(a[2]))
+        elif op == 'remove':
+            g.remove_edge(NAMES[a[0]], NAMES[a[1]])
+        elif op == 'delete':
+            g.delete_edge(NAMES[a[0]], NAMES[a[1]])
+    return g
